@@ -43,6 +43,8 @@ def ctor_variations(rng, cfg):
     """Constructor arguments that must not change what the session does."""
     if rng.random() < 0.15 and (cfg["version"] == "v3" or (cfg["version"] == "v2c" and not cfg.get("user"))):
         cfg["version_auto"] = True  # version=None: v3 iff a user is given, else v2c
+    if rng.random() < 0.1 and not cfg.get("version_auto"):
+        cfg["version_int"] = True  # version=1 instead of SnmpVersion.v2c
     if rng.random() < 0.1:
         cfg["tos"] = rng.choice([0x10, 0x28, 0xB8])
     if rng.random() < 0.1:
